@@ -42,6 +42,21 @@ func verifLintType(v value.Value) types.Type {
 //@ func verifLintType [C05]
 //@   inline
 
+// verifLintLiteral is the linter's notion of "literal" for an operand of that kind: it is syntactic
+// (isLiteralExpression: INTEGER, FLOAT, STRING and RTIME tokens). `true`/`false` and the NAME of a declared
+// backend or ACL are not literals for the linter although the simulator evaluates them to values with
+// Literal: true - the lemmas therefore also cover "literal for the simulator, variable for the linter".
+func verifLintLiteral(v value.Value) bool {
+	switch v.(type) {
+	case *value.Integer, *value.Float, *value.String, *value.RTime:
+		return v.IsLiteral()
+	}
+	return false
+}
+
+//@ func verifLintLiteral [C05]
+//@   inline
+
 //@ pred noIgnores(l *Linter) = l != nil && l.ignore != nil && cleanRules(l.ignore.ignoreNextLine) && cleanRules(l.ignore.ignoreThisLine) && cleanRules(l.ignore.ignoreRange)
 //@ pred simValue(v value.Value) = valid(v) && (is(v, *value.Integer) || is(v, *value.Float) || is(v, *value.String) || is(v, *value.Boolean) || is(v, *value.RTime) || is(v, *value.Time) || is(v, *value.IP) || is(v, *value.Backend) || is(v, *value.Acl))
 
@@ -59,7 +74,7 @@ func verifLintType(v value.Value) types.Type {
 // @   paths 20000
 // @   ensures [accepted-assignment-executes] len(l.Errors) == old(len(l.Errors)) ==> err == nil
 func lemma_assign_accepted_executes(l *Linter, op *ast.Operator, name string, left, right value.Value) (err error) {
-	l.lintAssignOperator(op, name, verifLintType(left), verifLintType(right), right.IsLiteral())
+	l.lintAssignOperator(op, name, verifLintType(left), verifLintType(right), verifLintLiteral(right))
 	err = assign.Assign(left, right)
 	return
 }
@@ -71,7 +86,7 @@ func lemma_assign_accepted_executes(l *Linter, op *ast.Operator, name string, le
 // @   paths 20000
 // @   ensures [accepted-addition-executes] len(l.Errors) == old(len(l.Errors)) ==> err == nil
 func lemma_addition_accepted_executes(l *Linter, op *ast.Operator, left, right value.Value) (err error) {
-	l.lintAddSubOperator(op, verifLintType(left), verifLintType(right), right.IsLiteral())
+	l.lintAddSubOperator(op, verifLintType(left), verifLintType(right), verifLintLiteral(right))
 	err = assign.Addition(left, right)
 	return
 }
@@ -82,7 +97,7 @@ func lemma_addition_accepted_executes(l *Linter, op *ast.Operator, left, right v
 // @   paths 20000
 // @   ensures [accepted-subtraction-executes] len(l.Errors) == old(len(l.Errors)) ==> err == nil
 func lemma_subtraction_accepted_executes(l *Linter, op *ast.Operator, left, right value.Value) (err error) {
-	l.lintAddSubOperator(op, verifLintType(left), verifLintType(right), right.IsLiteral())
+	l.lintAddSubOperator(op, verifLintType(left), verifLintType(right), verifLintLiteral(right))
 	err = assign.Subtraction(left, right)
 	return
 }
@@ -95,7 +110,7 @@ func lemma_subtraction_accepted_executes(l *Linter, op *ast.Operator, left, righ
 // @   paths 20000
 // @   ensures [accepted-multiplication-executes] len(l.Errors) == old(len(l.Errors)) ==> err == nil
 func lemma_multiplication_accepted_executes(l *Linter, op *ast.Operator, left, right value.Value) (err error) {
-	l.lintArithmeticOperator(op, verifLintType(left), verifLintType(right), right.IsLiteral())
+	l.lintArithmeticOperator(op, verifLintType(left), verifLintType(right), verifLintLiteral(right))
 	err = assign.Multiplication(left, right)
 	return
 }
@@ -107,7 +122,7 @@ func lemma_multiplication_accepted_executes(l *Linter, op *ast.Operator, left, r
 // @   paths 20000
 // @   ensures [accepted-division-executes] len(l.Errors) == old(len(l.Errors)) ==> err == nil
 func lemma_division_accepted_executes(l *Linter, op *ast.Operator, left, right value.Value) (err error) {
-	l.lintArithmeticOperator(op, verifLintType(left), verifLintType(right), right.IsLiteral())
+	l.lintArithmeticOperator(op, verifLintType(left), verifLintType(right), verifLintLiteral(right))
 	err = assign.Division(left, right)
 	return
 }
@@ -121,7 +136,7 @@ func lemma_division_accepted_executes(l *Linter, op *ast.Operator, left, right v
 // @   paths 20000
 // @   ensures [accepted-remainder-executes] len(l.Errors) == old(len(l.Errors)) ==> err == nil
 func lemma_remainder_accepted_executes(l *Linter, op *ast.Operator, left, right value.Value) (err error) {
-	l.lintArithmeticOperator(op, verifLintType(left), verifLintType(right), right.IsLiteral())
+	l.lintArithmeticOperator(op, verifLintType(left), verifLintType(right), verifLintLiteral(right))
 	err = assign.Remainder(left, right)
 	return
 }
